@@ -244,6 +244,28 @@ impl Out {
             max_failures: 20,
         }
     }
+    /// an `Out` that records failures, counts and the current case's op lines but writes no
+    /// stream files (for exhaustive enumerations of which only a sample is printed)
+    pub fn null() -> Self {
+        let sink = || std::io::BufWriter::new(std::fs::OpenOptions::new().write(true).open("/dev/null").unwrap());
+        Out {
+            dir: PathBuf::from("/dev/null"),
+            ops: sink(),
+            imp: sink(),
+            evaluations: 0,
+            ops_total: 0,
+            distinct: HashSet::new(),
+            hist: BTreeMap::new(),
+            samples: vec![],
+            failures: vec![],
+            notes: vec![],
+            cur_case: vec![],
+            cur_id: 0,
+            cur_nontrivial: false,
+            max_samples: 0,
+            max_failures: 20,
+        }
+    }
     pub fn begin_case(&mut self, id: u64) {
         self.cur_case.clear();
         self.cur_id = id;
